@@ -22,10 +22,19 @@ func init() {
 					jobs = append(jobs, Job{Prop: "C16", Pkg: "lexer", Func: "VerifLexStream", Args: []string{strconv.Itoa(n), mode}})
 				}
 			}
+			// long tokens: sizes around powers of two, one arbitrary byte in the middle
+			for _, kind := range []string{"string", "raw", "linecomment", "blockcomment", "number", "ident"} {
+				for _, n := range []int{15, 16, 17, 63, 64, 65, 127, 128, 129, 255, 256, 257, 1025} {
+					if kind == "number" && n > 17 {
+						continue // longer digit strings are not numbers the parser accepts; the lexer part is covered by the other kinds
+					}
+					jobs = append(jobs, Job{Prop: "C16", Pkg: "lexer", Func: "VerifLexLong", Args: []string{kind, strconv.Itoa(n)}})
+				}
+			}
 			return jobs
 		},
 		Budget:  map[string]time.Duration{"quick": 4 * time.Minute, "thorough": 40 * time.Minute},
-		Bounds:  map[string]interface{}{"step_lemma_input_bytes": "0..4 quick / 0..6 thorough, all 256 values per byte", "stream_input_bytes": "0..2 quick / 0..3 thorough", "modes": []string{"file", "line"}},
+		Bounds:  map[string]interface{}{"step_lemma_input_bytes": "0..4 quick / 0..6 thorough, all 256 values per byte", "stream_input_bytes": "0..2 quick / 0..3 thorough", "modes": []string{"file", "line"}, "long_tokens": "strings, raw strings, line and block comments, identifiers of 15..1025 bytes (around every power of two) and numbers of 15..17 digits with one arbitrary byte in the middle: one token spanning the literal, shared object when lexed twice"},
 		Outside: []string{"inputs longer than the stated number of symbolic bytes (the step lemma covers any first token of up to that length from position 0 with arbitrary lexer flags)"},
 	})
 }
